@@ -78,6 +78,21 @@ vf_fadvise(int fd, off_t a, off_t b, int c)
 	return 0;
 }
 
+#if defined VF_CBMC
+/* cbmc 6.11 ships no model of memchr */
+static void*
+vf_memchr(const void *s, int c, size_t n)
+{
+	const unsigned char *p = s;
+	for (size_t i = 0; i < n; i++) {
+		if (p[i] == (unsigned char)c) {
+			return (void*)(p + i);
+		}
+	}
+	return NULL;
+}
+# define memchr	vf_memchr
+#endif
 #define read	vf_read
 #define mmap	vf_mmap
 #define munmap	vf_munmap
@@ -87,6 +102,9 @@ vf_fadvise(int fd, off_t a, off_t b, int c)
 #undef mmap
 #undef munmap
 #undef posix_fadvise
+#if defined VF_CBMC
+# undef memchr
+#endif
 
 /* what the consumer loop of dconv/dadd/dround sees */
 #define MAXOUT	(SLEN + 2)
@@ -157,6 +175,12 @@ h_chunking(void)
 			start = i + 1;
 		}
 	}
+#if VF_REPLAY
+	printf("delivered %u lines, expected %u\n", nout, nexp);
+	for (unsigned int i = 0; i < nout; i++) {
+		printf("  line %u: len %u\n", i, out_len[i]);
+	}
+#endif
 	CHECK(nout == nexp, "no line lost, duplicated, split or merged");
 	CHECK(same, "every line delivered byte for byte, whatever the read sizes");
 	WITNESS();
